@@ -18,9 +18,10 @@
     - REMEMBER stores every arriving batch as one frame (raw stream: no de-duplication; LIMIT n cuts the
       stream after n rows, each source having been cut to n rows by the pushed-down limit);
     - the mark of a frame is (max "timestamp" column, max "event_id" column) — two independent maxima
-      (encoder.rs) — and the mark of a materialisation is the mark of its LAST frame
-      (sink.rs: [self.high_water = meta.high_water_mark], bootstrap_from_manifest: [frames().last()]),
-      not the maximum over frames;
+      (encoder.rs) — and the mark of a materialisation is the MAXIMUM of the marks of its frames
+      (sink.rs since c71d768: [self.high_water.advance(..)] in append and over all frames in
+      bootstrap_from_manifest; [mat_sink_mark_last = false]).  Before that fix it was the mark of the LAST
+      frame; that branch of [frames_mark] is kept under the translator switch;
     - SHOW streams the stored frames, then the delta query: the query with SINCE raised to the mark's
       timestamp (spec.rs delta_command; applied to the query's own time field), run with the
       materialisation metadata, which makes the zone selector skip a segment whose .zones file mtime is
@@ -115,8 +116,8 @@ Definition max_of (f : event -> N) (l : list event) : N := fold_right (fun e m =
 (** encoder.rs: max over the "timestamp" column and, independently, max over the "event_id" column *)
 Definition frame_mark (f : list event) : mark := (max_of e_ts f, max_of e_id f).
 Definition mark_max (a b : mark) : mark := if mlt a b then b else a.
-(** sink.rs: the mark is the one of the last frame ([mat_sink_mark_last], the code as it is) — the other
-    branch is HighWaterMark::advance over every frame *)
+(** sink.rs: HighWaterMark::advance over every frame — the maximum ([mat_sink_mark_last = false], the code as it
+    is since c71d768); the other branch is the pre-fix rule "mark of the last frame" *)
 Definition frames_mark (fs : list (list event)) : mark :=
   if mat_sink_mark_last
   then match fs with [] => (0, 0) | _ => frame_mark (last fs []) end
